@@ -28,4 +28,9 @@ for name in sorted(os.listdir(os.path.join(VERIF, "seeded"))):
         subprocess.run(["git", "-C", "/repo", "checkout", "--", "."])
 for r in rows:
     print("%-42s %-4s %-12s %s" % r)
-json.dump(rows, open(os.path.join(VERIF, "seeded", "RESULTS.json"), "w"), indent=1)
+rp = os.path.join(VERIF, "seeded", "RESULTS.json")
+old = json.load(open(rp)) if (sel and os.path.exists(rp)) else []
+done = {(r[0], r[1]) for r in rows}
+merged = [list(r) for r in old if (r[0], r[1]) not in done] + [list(r) for r in rows]
+merged.sort()
+json.dump(merged, open(rp, "w"), indent=1)
